@@ -11,6 +11,7 @@ import (
 	"fmt"
 	"go/ast"
 	"go/parser"
+	"go/printer"
 	"go/token"
 	"os"
 	"path/filepath"
@@ -670,8 +671,74 @@ func (p *pkgFiles) getterCopies(o *out, names []string) {
 	o.pf("def getterCopies : List (List UInt8 × Bool) := [%s]\n\n", strings.Join(items, ", "))
 }
 
+// leanStr renders a Go string as a Lean string literal.
+func leanStr(s string) string {
+	var b strings.Builder
+	b.WriteByte('"')
+	for _, r := range s {
+		switch {
+		case r == '"':
+			b.WriteString("\\\"")
+		case r == '\\':
+			b.WriteString("\\\\")
+		case r == '\t':
+			b.WriteString(" ")
+		case r < 0x20 || r > 0x7e:
+			fmt.Fprintf(&b, "\\u{%x}", r)
+		default:
+			b.WriteRune(r)
+		}
+	}
+	b.WriteByte('"')
+	return b.String()
+}
+
+// skeleton prints the statement skeleton of one function: its body as go/printer renders it without
+// comments, one trimmed line per entry, debug-log statements removed. Any change to the function's
+// control flow, calls, conditions or literals changes this list.
+func (p *pkgFiles) skeleton(o *out, name, recv, leanName string) {
+	fd := p.funcDecl(name, recv)
+	if fd == nil || fd.Body == nil {
+		die("skeleton: function %s.%s not found", recv, name)
+	}
+	var buf bytes.Buffer
+	saved := fd.Doc
+	fd.Doc = nil
+	if err := printer.Fprint(&buf, p.fset, fd); err != nil {
+		die("skeleton %s: %v", name, err)
+	}
+	fd.Doc = saved
+	o.pf("def skel_%s : List String := [\n", leanName)
+	first := true
+	for _, l := range strings.Split(buf.String(), "\n") {
+		l = strings.TrimSpace(l)
+		if l == "" || strings.HasPrefix(l, "//") || strings.HasPrefix(l, "c.debug.Print") || strings.HasPrefix(l, "defer c.debug.Print") || strings.HasPrefix(l, "client.debug.Print") {
+			continue
+		}
+		if !first {
+			o.pf(",\n")
+		}
+		first = false
+		o.pf("  %s", leanStr(l))
+	}
+	o.pf("]\n\n")
+}
+
+func writeIfChanged(path, content string) {
+	if old, err := os.ReadFile(path); err == nil && string(old) == content {
+		return // unchanged: keep Lake's cache valid
+	}
+	if err := os.MkdirAll(filepath.Dir(path), 0o755); err != nil {
+		die("%v", err)
+	}
+	if err := os.WriteFile(path, []byte(content), 0o644); err != nil {
+		die("%v", err)
+	}
+}
+
 func main() {
 	repo := flag.String("repo", "/repo", "repository root")
+	skelPath := flag.String("skel", "", "output Lean file for the function skeletons (default: Skel.lean next to -out)")
 	outPath := flag.String("out", "/verif/lean/Girc/Gen/Facts.lean", "output Lean file")
 	flag.Parse()
 
@@ -716,6 +783,31 @@ func main() {
 	ch.strConsts(o, []string{"cmdMatch", "validName"})
 
 	o.pf("end Girc.Gen\n")
+
+	// function skeletons (concurrency-relevant code), in their own module
+	sk := &out{}
+	sk.pf("/- GENERATED by tools/extract from the Go sources in %s — do not edit.\n   Statement skeletons of the functions the concurrency models (C06 C07 C12) are written against. -/\n", *repo)
+	sk.pf("namespace Girc.Gen\n\n")
+	for _, f := range [][3]string{
+		{"internalConnect", "Client", "internalConnect"}, {"execLoop", "Client", "execLoop"}, {"readLoop", "Client", "readLoop"},
+		{"sendLoop", "Client", "sendLoop"}, {"pingLoop", "Client", "pingLoop"}, {"Close", "Client", "Close"}, {"Quit", "Client", "Quit"},
+		{"write", "Client", "write"}, {"receive", "Client", "receive"}, {"Send", "Client", "Send"}, {"decode", "ircConn", "decode"},
+		{"RunHandlers", "Client", "RunHandlers"}, {"exec", "Caller", "exec"}, {"register", "Caller", "register"},
+		{"sregister", "Caller", "sregister"}, {"remove", "Caller", "remove"}, {"Remove", "Caller", "Remove"},
+		{"Clear", "Caller", "Clear"}, {"ClearAll", "Caller", "ClearAll"}, {"AddTmp", "Caller", "AddTmp"},
+		{"Add", "Caller", "Add"}, {"AddBg", "Caller", "AddBg"}, {"AddHandler", "Caller", "AddHandler"},
+		{"cuidToID", "Caller", "cuidToID"}, {"recoverHandlerPanic", "", "recoverHandlerPanic"}} {
+		p.skeleton(sk, f[0], f[1], f[2])
+	}
+	cg := load(filepath.Join(*repo, "internal/ctxgroup"))
+	for _, f := range [][3]string{{"New", "", "ctxgroup_New"}, {"Wait", "Group", "ctxgroup_Wait"}, {"Go", "Group", "ctxgroup_Go"}} {
+		cg.skeleton(sk, f[0], f[1], f[2])
+	}
+	sk.pf("end Girc.Gen\n")
+	if *skelPath == "" {
+		*skelPath = filepath.Join(filepath.Dir(*outPath), "Skel.lean")
+	}
+	writeIfChanged(*skelPath, sk.b.String())
 
 	for _, n := range o.notes {
 		fmt.Fprintln(os.Stderr, "extract: note:", n)
